@@ -54,8 +54,8 @@ LEVEL_NOTE = ("Trusted: Coq kernel + vm_compute; the hand-written model (values 
               "as raising and covered by the atomicity / acceptance theorems only: NULL-typed columns (TypeError), tuple/scalar entries.")
 DESIGN_REF = "DESIGN.md section 8, C05"
 COQ_IMPORTS = "From Orso Require Import Gen.C05_Types Model.C05."
-COQ_CHECKS = {"validate": "c05_validate_check", "hist": "c05_hist_check", "session": "c05_session_check"}
-COQ_SHOW = {"validate": "c05_validate_show", "hist": "c05_hist_show", "session": "c05_session_show"}
+COQ_CHECKS = {"validate": "c05_validate_check2", "hist": "c05_hist_check2", "session": "c05_session_check2"}
+COQ_SHOW = {"validate": "c05_validate_show2", "hist": "c05_hist_show2", "session": "c05_session_show2"}
 RULE = ("validate stream: the complete decision table (every OrsoTypes member and both untyped forms x nullable x one value of every class in "
         "the pool, incl. subclass pairs) on a one-column schema, then random schemas of 1..6 columns (typed/untyped/NULL, nullable or not, "
         "occasionally duplicate names) x records with every column independently missing/null/right/right-by-subclass/wrong plus 0..2 excess keys, "
@@ -70,6 +70,8 @@ RULE = ("validate stream: the complete decision table (every OrsoTypes member an
         "both tiers, and the value pool has subclass instances (int/str/float/list/bytes/date subclasses, IntEnum), tz-aware datetime/time, "
         "Decimal(1)/1.0/1/-0.0/inf, 2**53+1, ndarray, datetime64; non-trivial = at least one column check or one append happened; distinct by canonical JSON")
 TRUSTED = [
+    "round 6: every exception object caught in a case is kept and its .errors / .columns / message read a second time after all later operations "
+    "of the case and four further unrelated validations; both readings are compared with the same model output (streams *_check2)",
     "C05 model (coq/Model/C05.v): values are None | (exact class id, identity, serialisable flag); isinstance = regenerated issubclass matrix on type(v)",
     "modelled, not verified: Row.nbytes failing exactly on the pool values flagged unserialisable (ormsgpack), extract_dict_columns (compiled) = dict.get per field",
     "the harness reads DataValidationError.errors under the three literal category strings of schema.py and ExcessColumnsInDataError.columns as a set",
@@ -534,16 +536,17 @@ def _cell(x):
     return {"unknown": repr(x)[:40]}
 
 
-def _outcome(fn):
-    """Run fn; canonical outcome."""
+def _canon(res):
+    """Canonical reading of what a call returned or raised: res = ("ok", value) | ("exc", exception object)."""
     from orso.exceptions import DataValidationError, ExcessColumnsInDataError
 
-    try:
-        r = fn()
-    except ExcessColumnsInDataError as e:
+    if res[0] == "ok":
+        return {"v": "ok", "ret": repr(res[1])}
+    e = res[1]
+    if isinstance(e, ExcessColumnsInDataError):
         cols = e.columns
         return {"v": "excess", "columns": sorted(str(c) for c in cols), "n": len(cols)}
-    except DataValidationError as e:
+    if isinstance(e, DataValidationError):
         errs = e.errors
         wrong = []
         for t in errs.get(WRONG_KEY, []):
@@ -551,9 +554,46 @@ def _outcome(fn):
             wrong.append([t[0], _cell(t[1]), getattr(ty, "name", repr(ty))])
         return {"v": "errors", "missing": list(errs.get(MISSING_KEY, [])), "notnull": list(errs.get(NOTNULL_KEY, [])),
                 "wrong": wrong, "other": sorted(str(k) for k in errs if k not in (MISSING_KEY, NOTNULL_KEY, WRONG_KEY))}
+    return {"v": "raise", "exc": type(e).__name__}
+
+
+def _outcome(fn, kept=None):
+    """Run fn; canonical outcome, read at once.  kept (a list) receives the raw result - the exception OBJECT - and the message
+    text it had, so that it can be read a second time after later operations (_late)."""
+    try:
+        res = ("ok", fn())
     except Exception as e:
-        return {"v": "raise", "exc": type(e).__name__}
-    return {"v": "ok", "ret": repr(r)}
+        res = ("exc", e)
+    if kept is not None:
+        kept.append((res, str(res[1]) if res[0] == "exc" else None))
+    return _canon(res)
+
+
+def _disturb():
+    """Unrelated validations through fresh objects: rejected for every reason, and accepted."""
+    sch = _mk_schema([["c7", "INTEGER", False], ["c6", "VARCHAR", False]])
+    for rec in ({}, {"c7": None, "c6": 7}, {"c7": 1, "c6": "t", "x3": 1, "x2": 2}, {"c7": 1, "c6": "t"}):
+        try:
+            sch.validate(rec)
+        except Exception:
+            pass
+
+
+def _late(kept):
+    """Second reading of every kept result, after everything else in the case (and _disturb) has run."""
+    _disturb()
+    out = []
+    for res, msg in kept:
+        d = _canon(res)
+        if res[0] == "exc":
+            d["msg_same"] = str(res[1]) == msg
+        out.append(d)
+    return out
+
+
+def _same_reading(now, late):
+    return all(now.get(k) == late.get(k) for k in ("v", "ret", "columns", "n", "missing", "notnull", "wrong", "other", "exc")) \
+        and late.get("msg_same", True)
 
 
 def _rows_of(df):
@@ -573,8 +613,10 @@ def observe(case):
     if case["kind"] == "validate":
         schema = _mk_schema(case["schema"])
         entry = _mk_entry(case["rec"])
-        out = _outcome(lambda: schema.validate(entry))
+        kept = []
+        out = _outcome(lambda: schema.validate(entry), kept)
         out["keys_after"] = _keys_after(case["rec"], entry)
+        out["late"] = _late(kept)[0]
         return out
     if case["kind"] == "session":
         return _observe_session(case)
@@ -589,11 +631,14 @@ def observe(case):
         raise KeyError(init["how"])
     obs = {"init_rows": _rows_of(df), "init_nb": df._nbytes is not None, "init_cur": df._cursor is not None,
            "names": [str(c) for c in df.column_names], "steps": []}
+    kept = []
     for rec in case["entries"]:
         entry = _mk_entry(rec)
-        out = _outcome(lambda: df.append(entry))
+        out = _outcome(lambda: df.append(entry), kept)
         obs["steps"].append({"out": out, "rows": _rows_of(df), "count": df.rowcount, "keys_after": _keys_after(rec, entry),
                              "nb": df._nbytes is not None, "cur": df._cursor is not None})
+    for st, late in zip(obs["steps"], _late(kept)):
+        st["late"] = late
     return obs
 
 
@@ -602,16 +647,23 @@ def _observe_session(case):
 
     from orso.dataframe import DataFrame
 
+    import pickle
+
     objs = []
     for sc in case["schemas"]:
-        objs.append(copy.deepcopy(objs[sc["copy_of"]]) if isinstance(sc, dict) else _mk_schema(sc))
+        if isinstance(sc, dict):  # an equal, independent object: deep copy, or a pickle round trip
+            src = objs[sc["copy_of"]]
+            objs.append(pickle.loads(pickle.dumps(src)) if sc.get("how") == "pickle" else copy.deepcopy(src))
+        else:
+            objs.append(_mk_schema(sc))
     df = None
     obs = []
+    kept = []
     for op in case["ops"]:
         k = op[0]
         if k == "validate":
             schema, entry = objs[op[1]], _mk_entry(op[2])
-            out = _outcome(lambda: schema.validate(entry))
+            out = _outcome(lambda: schema.validate(entry), kept)
             obs.append({"op": "validate", "out": out, "keys_after": _keys_after(op[2], entry)})
         elif k == "mutate":
             try:
@@ -627,11 +679,15 @@ def _observe_session(case):
                 obs.append({"op": "raise", "exc": "NoFrame"})
                 continue
             entry = _mk_entry(op[1])
-            out = _outcome(lambda: df.append(entry))
+            out = _outcome(lambda: df.append(entry), kept)
             obs.append({"op": "append", "out": out, "rows": _rows_of(df), "count": df.rowcount, "keys_after": _keys_after(op[1], entry),
                         "nb": df._nbytes is not None, "cur": df._cursor is not None})
         else:
             raise KeyError(k)
+    late = iter(_late(kept))
+    for ob in obs:
+        if ob["op"] in ("validate", "append"):
+            ob["late"] = next(late)
     return obs
 
 
@@ -723,8 +779,27 @@ def _legend(case):
     return "; ".join("%d=%s" % (v, pool()[v][0]) for v in sorted(vids) if 0 <= v < len(pool()))
 
 
+def _oracle_late(case, obs):
+    """An error is a value: kept and read again after every later operation of the case (and further unrelated validations) it
+    must say what it said when it was caught - same columns, same message."""
+    if case["kind"] == "validate":
+        pairs = [("validate", obs, obs["late"])]
+    elif case["kind"] == "hist":
+        pairs = [(f"append {i} {rec}", st["out"], st["late"]) for i, (rec, st) in enumerate(zip(case["entries"], obs["steps"]))]
+    else:
+        pairs = [(f"op {i} {op}", ob["out"], ob["late"]) for i, (op, ob) in enumerate(zip(case["ops"], obs)) if "late" in ob]
+    for where, now, late in pairs:
+        if not _same_reading(now, late):
+            shown = {k: v for k, v in now.items() if k not in ("late", "keys_after")}
+            return (f"{where}: the outcome caught at the time was {shown}; the same exception object read again after the later "
+                    f"operations says {late} - an error must keep naming its own record's columns")
+    return None
+
+
 def oracle(case, obs):
     why = _oracle(case, obs)
+    if why is None:
+        why = _oracle_late(case, obs)
     if why is not None:
         why += "   [value ids: " + _legend(case) + "]"
     return why
@@ -967,7 +1042,17 @@ def _to_coq_session(case, obs):
             cobs.append("(BAppend %s %s %s %s)" % (_coq_out(ob["out"], "OOk"), _coq_rows(ob["rows"]), L.boolean(ob["nb"]), L.boolean(ob["cur"])))
         else:
             cobs.append("(BValidate OOther)")  # the operation itself raised: never matches
-    return ("session", "((%s, %s, %s) : c05_session_case)" % (L.lst(objs), L.lst(ops), L.lst(cobs)))
+    late = []
+    for ob in obs[:len(case["ops"])]:
+        if ob["op"] == "validate":
+            late.append(L.opt(_coq_out(ob["late"], "OOk" if ob["late"].get("ret") == "True" else "OOther")))
+        elif ob["op"] == "append":
+            late.append(L.opt(_coq_out(ob["late"], "OOk")))
+        elif ob["op"] == "unit":
+            late.append("None")
+        else:
+            late.append("(Some OOther)")
+    return ("session", "((((%s, %s, %s) : c05_session_case), %s) : c05_session_case2)" % (L.lst(objs), L.lst(ops), L.lst(cobs), L.lst(late)))
 
 
 def to_coq(case, obs):
@@ -975,7 +1060,9 @@ def to_coq(case, obs):
         return _to_coq_session(case, obs)
     if case["kind"] == "validate":
         rec = case["rec"]
-        return ("validate", "((%s, %s, %s) : c05_validate_case)" % (_coq_schema(case["schema"]), _coq_entry(rec), _coq_out(obs, "OOk" if obs.get("ret") == "True" else "OOther")))
+        ok = lambda o: "OOk" if o.get("ret") == "True" else "OOther"
+        return ("validate", "((((%s, %s, %s) : c05_validate_case), %s) : c05_validate_case2)" % (
+            _coq_schema(case["schema"]), _coq_entry(rec), _coq_out(obs, ok(obs)), _coq_out(obs["late"], ok(obs["late"]))))
     init = case["init"]
     if init["how"] == "schema":
         i = "(IRows %s %s)" % (_coq_schema(init["schema"]), _coq_rows(init["rows"]))
@@ -986,7 +1073,9 @@ def to_coq(case, obs):
     steps = L.lst("(%s, %s, %s, %s)" % (_coq_out(s["out"], "OOk"), _coq_rows(s["rows"]), L.boolean(s["nb"]), L.boolean(s["cur"]))
                   for s in obs["steps"])
     first = "(%s, %s, %s)" % (_coq_rows(obs["init_rows"]), L.boolean(obs["init_nb"]), L.boolean(obs["init_cur"]))
-    return ("hist", "((%s, %s, %s, %s) : c05_hist_case)" % (i, L.lst(_coq_entry(e) for e in case["entries"]), first, steps))
+    late = L.lst(_coq_out(s["late"], "OOk") for s in obs["steps"])
+    return ("hist", "((((%s, %s, %s, %s) : c05_hist_case), %s) : c05_hist_case2)" % (
+        i, L.lst(_coq_entry(e) for e in case["entries"]), first, steps, late))
 
 
 # --------------------------------------------------------------------------------------
@@ -1218,6 +1307,7 @@ def _session_matrix():
         ("validated-rejected", [[a, b]], [["validate", 0, bad]]),
         ("appended", [[a, b]], [["frame", 0], ["append", ok]]),
         ("copy-validated", [[a, b], {"copy_of": 0}], [["validate", 0, ok], ["validate", 1, ok]]),
+        ("pickle-copy-rejected", [[a, b], {"copy_of": 0, "how": "pickle"}], [["validate", 1, bad], ["validate", 0, ok]]),
     ]
     for m in muts:
         after = apply_mut([a, b], m)
@@ -1395,7 +1485,7 @@ def _rand_session(rng):
     cols = [[list(c) for c in first]]
     if rng.random() < 0.4:
         if rng.random() < 0.5:
-            schemas.append({"copy_of": 0})
+            schemas.append({"copy_of": 0, "how": rng.choice(["deepcopy", "pickle"])})
             cols.append([list(c) for c in first])
         else:
             other = [c for c in _rand_schema(rng)[:3] if c[1] != "NULL"] or [["c1", "VARCHAR", True]]
